@@ -88,6 +88,30 @@ class Run:
         return rep
 
     # ---------------------------------------------------------------- bounded stand-ins through the real code
+    def run_gen_test(self, spec, env_extra, timeout=900):
+        """bounded stand-in on generated code: copy a test file into a package of an expanded carrier and run it there"""
+        d = self.subst(spec["gen_dir"])
+        for src, dst in spec["copy"].items():
+            shutil.copy(os.path.join(VERIF, src), os.path.join(d, dst))
+        outp = os.path.join(self.work, "bounded-%d.json" % len(os.listdir(self.work)))
+        env = dict(GOENV, VERIF_OUT=outp, VERIF_SEED=str(self.seed))
+        env.update(env_extra)
+        cmd = ["go", "test", "-vet=off", "-count=1", "-timeout", "%ds" % timeout, "-run", spec["run"], spec["pkg"]]
+        rc, o = sh(cmd, cwd=d, env=env, timeout=timeout + 60)
+        if not os.path.exists(outp):
+            if "[build failed]" in o or "cannot find" in o or "no Go files" in o:
+                raise EngineError("bounded harness did not build:\n" + o[-3000:])
+            return {"cases": 0, "fails": ["harness crashed: " + o[-1500:]], "cmd": " ".join(cmd)}
+        r = json.load(open(outp))
+        r["cmd"] = "(in expanded carrier %s) " % os.path.basename(d) + " ".join(cmd)
+        r["fails"] = r.get("fails") or []
+        return r
+
+    def run_bounded(self, spec, envx, **kw):
+        if "gen_dir" in spec:
+            return self.run_gen_test(spec, envx, **kw)
+        return self.run_overlay_test(spec, envx, **kw)
+
     def run_overlay_test(self, spec, env_extra, timeout=900, repo=None):
         repo = repo or self.repo
         ov = {"Replace": {self.subst(k).replace(self.repo, repo): os.path.join(VERIF, v) for k, v in spec["overlay"].items()}}
@@ -129,7 +153,7 @@ class Run:
         bounded = []
         for spec in cfg.get("bounded", []):
             envx = {k: (v[self.tier] if isinstance(v, dict) else v) for k, v in spec.get("env", {}).items()}
-            r = self.run_overlay_test(spec, envx)
+            r = self.run_bounded(spec, envx)
             r["name"] = spec["name"]
             r["scope"] = envx
             r["stands_in_for"] = spec.get("stands_in_for", [])
@@ -326,7 +350,11 @@ class Run:
                 if spec["name"] == rp["replay_spec"]:
                     inp = rp["input"]
                     case = inp.split(" ", 1)[0] if isinstance(inp, str) else json.dumps(inp)
-                    r = self.run_overlay_test(spec, {spec["replay_env"]: "replay:" + case})
+                    if cfg.get("prepare"):
+                        cfg["prepare"](self)
+                    envx = {k: (v[self.tier] if isinstance(v, dict) else v) for k, v in spec.get("env", {}).items()}
+                    envx[spec["replay_env"]] = "replay:" + case
+                    r = self.run_bounded(spec, envx)
                     if r["fails"]:
                         self.say("replay reproduces: %s" % r["fails"][0])
                         self.say("VIOLATION property=%s replay=%s" % (self.prop, path))
